@@ -275,7 +275,7 @@ func (e *fnEnc) uncontractedCall(c *blockCtx, in ssa.Instruction, name string, s
 	if name == "" {
 		name = "dynamic call"
 	}
-	if neutralStdlib(name) {
+	if neutralStdlib(name) || e.eng.neutralExtra[shortCallee(name)] {
 		// standard-library functions that compute on their arguments only (string and
 		// path manipulation, formatting, logging, arithmetic): no effect on program
 		// memory reachable by the functions under contract; results unconstrained
